@@ -899,6 +899,10 @@ class Step(Node):
         if self.get_state() == StepState.FAILED:
             self.graph.mark_step_pending(self)
         self.set_resources(resources)
+        if (env_overrides or {}) != self.get_env_overrides():
+            # The stored hash and the outputs belong to a run under the former overrides.
+            # The state is kept by a full recycle, so nothing else would look at the hash again.
+            self.graph.mark_step_pending(self)
         self.set_env_overrides(env_overrides)
         if duration is not None:
             self.set_duration(duration)
